@@ -12,3 +12,10 @@ from . import gen_engine
 @register_gen("engine")
 def _engine(repo):
     return gen_engine.generate(repo)
+from . import gen_shipped
+
+
+@register_gen("shipped")
+def _shipped(repo):
+    files, info = gen_shipped.generate(repo)
+    return files, {k: v for k, v in info.items() if k in ("translated", "hand")}
